@@ -1,7 +1,8 @@
 import GlmVerif.Spec.C02
-import GlmVerif.Gen.C02
-/-! table check of family `preinc` against the model generated from /repo (kernel evaluation) -/
+import GlmVerif.Gen.C02.preinc
+/-! table check of family `preinc` against the model of its units generated from /repo (kernel evaluation) -/
 namespace Glm.Props.C02
 open Glm Glm.Spec.C02 Glm.Gen.C02
-theorem preinc_ok : f_preinc.ok lookup = true := by decide +kernel
+set_option maxHeartbeats 4000000 in
+theorem preinc_ok : f_preinc.ok (fun _ ks => preinc_L ks) = true := by decide +kernel
 end Glm.Props.C02
